@@ -58,6 +58,15 @@ def check(ctx, report):
             continue
         cm = compare_class(c, ctx.canon)
         report.count('C05.R1')
+        from ..codecs import EVALUATED_CODECS
+        if cm.diffs and c.name in EVALUATED_CODECS:
+            # layouts that differ in shape only: both functions evaluated against the wire format (sa/codecs.py, see C01.R1) -
+            # what the parser accepted there is what the composer produced
+            ev = EVALUATED_CODECS[c.name](ctx)
+            if ev['evaluated']:
+                for side, text in sorted(ev['problems'].items()):
+                    report.add('C05.R1', '%s@codec[%s]' % (c.construct, side), text)
+                continue
         for d in cm.diffs:
             a = d.a
             if a is None:
